@@ -351,7 +351,7 @@ def b_hasattr(ex, args, kwargs, line):
     if isinstance(obj, (str, int, SStr, SInt, SBool, bool, float, SFloat)):
         return hasattr("" if isinstance(obj, (str, SStr)) else 0, name)
     if isinstance(obj, PObj):
-        return name in obj.fields or ex.ctx.find_method(obj.cls, name) is not None
+        return name in obj.fields or ex.ctx.find_method(obj.cls, name) is not None or (obj.cls, name) in getattr(ex.ctx, "method_models", {})
     raise Unsupported("hasattr")
 
 
